@@ -43,7 +43,7 @@ def make_case(rng, B, kind, overfill=None):
     if kw is None:
         return OptCase(B, "qr")
     meta = {}
-    if kw["constraint_option"] in ("exact_n", "predetermined") and rng.random() < 0.4:
+    if kw["constraint_option"] in ("exact_n", "predetermined") and rng.random() < 0.6:
         meta["omit_all_sensors"] = True          # optional keyword left out
     if rng.random() < 0.3:
         meta["np_ints"] = 64
